@@ -9,6 +9,7 @@ import translate_mixins
 import translate_parametric
 import translate_free
 import translate_kernels
+import translate_glue
 
 
 def gen_arith():
@@ -43,4 +44,8 @@ def gen_kernels():
     return translate_kernels.translate(os.path.join(PKG, "pba/operation.py"))
 
 
-ALL = [("GenKernels", gen_kernels), ("GenFree", gen_free), ("GenParametric", gen_parametric), ("GenDispatch", gen_dispatch), ("GenArith", gen_arith), ("GenParams", gen_params), ("GenHedge", gen_hedge), ("GenKS", gen_ks)]
+def gen_glue():
+    return translate_glue.translate(os.path.join(PKG, "pba/pbox_abc.py"))
+
+
+ALL = [("GenGlue", gen_glue), ("GenKernels", gen_kernels), ("GenFree", gen_free), ("GenParametric", gen_parametric), ("GenDispatch", gen_dispatch), ("GenArith", gen_arith), ("GenParams", gen_params), ("GenHedge", gen_hedge), ("GenKS", gen_ks)]
